@@ -342,6 +342,17 @@ macro_rules! impl_rank_small {
                 let mut upper_counts = Vec::with_capacity(num_upper_counts);
                 let mut counts = Vec::with_capacity(num_counts);
 
+                // The content of the last word beyond the length of the
+                // vector is arbitrary and must not be counted
+                let residual = num_bits % 64;
+                let count_ones = |i: usize| -> usize {
+                    let mut word = bits.as_ref()[i];
+                    if residual != 0 && i == num_words - 1 {
+                        word &= (1 << residual) - 1;
+                    }
+                    word.count_ones() as usize
+                };
+
                 let mut past_ones = 0;
                 let mut upper_count = 0;
 
@@ -352,7 +363,7 @@ macro_rules! impl_rank_small {
                     }
                     let mut count = Block32Counters::<$NUM_U32S, $COUNTER_WIDTH>::default();
                     count.absolute = (past_ones - upper_count) as u32;
-                    past_ones += bits.as_ref()[i].count_ones() as usize;
+                    past_ones += count_ones(i);
 
                     for j in 1..Self::WORDS_PER_BLOCK {
                         #[allow(clippy::modulo_one)]
@@ -361,7 +372,7 @@ macro_rules! impl_rank_small {
                             count.set_rel(j / Self::WORDS_PER_SUBBLOCK, rel_count);
                         }
                         if i + j < num_words {
-                            past_ones += bits.as_ref()[i + j].count_ones() as usize;
+                            past_ones += count_ones(i + j);
                         }
                     }
 
